@@ -154,6 +154,7 @@ def run(ctx):
     r.rule("R9.4", "methods consult self.<list>, never the module-level default", floor=10)
     r.rule("R9.5", "CSS: each kept declaration is dominated by an allow-list test; url() stripped before the gauntlet", floor=4)
     element_gate(ctx)
+    total_table_lookups(ctx)
     svg_reference_and_css_families(ctx)
     global_substitutions(ctx)
     animation_values(ctx)
@@ -540,6 +541,46 @@ def svg_reference_and_css_families(ctx):
             % ([e.value for e in hard[0].comparators[0].elts] if hard else []))
 
 
+def total_table_lookups(ctx):
+    """R9.11: the sanitizer must produce output for every token stream.  A subscript of a constant table (constants.prefixes,
+    constants.namespaces, ...) with a key that comes from the token -- a namespace, a name -- raises KeyError for a value the table
+    does not list (the etree walker reports the attribute `{x}y` in the namespace `x`), so such a lookup has to be guarded (`in`,
+    `.get`, try/except KeyError)."""
+    r = ctx.r
+    r.rule("R9.11", "constant tables are not indexed with token-derived keys without a guard", floor=1)
+    mod = ctx.repo.module(REL)
+    cls = ctx.repo.cls(REL, "Filter")
+    tables = {nm for nm, (m_, a_) in mod.imports.items() if m_ == "html5lib.constants" and isinstance(ctx.ce.try_eval(ast.Name(id=nm, ctx=ast.Load()), mod), dict)}
+    n = 0
+    for m in cls.methods.values():
+        parents = {}
+        for p_ in ast.walk(m.node):
+            for c_ in ast.iter_child_nodes(p_):
+                parents[id(c_)] = p_
+        for sub in walk_no_nested(m.node):
+            if isinstance(sub, ast.Subscript) and isinstance(sub.value, ast.Name) and sub.value.id in tables and isinstance(sub.ctx, ast.Load):
+                n += 1
+                if ctx.ce.try_eval(sub.slice, mod) is not None:
+                    r.ok("R9.11", "table-lookup::%s::%s[%s]" % (m.name, sub.value.id, norm(sub.slice)), "%s:%d" % (REL, sub.lineno))
+                    continue
+                keytxt = norm(sub.slice)
+                guarded = False
+                p_ = sub
+                while id(p_) in parents:
+                    q_ = parents[id(p_)]
+                    if isinstance(q_, ast.Try) and p_ in q_.body and any(h.type is None or "KeyError" in norm(h.type) or "LookupError" in norm(h.type) or "Exception" in norm(h.type) for h in q_.handlers):
+                        guarded = True
+                    if isinstance(q_, (ast.If, ast.IfExp)) and ("%s in %s" % (keytxt, sub.value.id)) in norm(q_.test):
+                        guarded = True
+                    p_ = q_
+                r.check("R9.11", guarded, "table-lookup::%s::%s[%s]" % (m.name, sub.value.id, keytxt), "%s:%d" % (REL, sub.lineno),
+                        "%s indexes the constant table `%s` with `%s`, which comes from the token: a value the table does not list raises KeyError and "
+                        "the sanitizer produces nothing -- serialize(parseFragment('<foo {x}y=1>t</foo>'), sanitize=True) with the etree builder"
+                        % (m.qual, sub.value.id, keytxt))
+    if n < 1:
+        raise AnalysisError("R9.11: no lookup in a constants table found in the sanitizer")
+
+
 def global_substitutions(ctx):
     """R9.6: every substitution the sanitizer uses to strip something (control characters, url(...) references) replaces
     *all* occurrences: no count argument."""
@@ -571,6 +612,7 @@ def thorough(ctx):
 def mutants():
     from ..selftest import TextMutant as T
     return [
+        T("prefix-table-indexed", REL, "prefixes.get(ns, ns)", "prefixes[ns]", "R9.11"),
         T("svg-url-case-sensitive", REL, "                                         unescape(attrs[attr]),\n                                         flags=re.I)", "                                         unescape(attrs[attr]))", "R9.9"),
         T("uri-gate-double-delete", REL, "                    elif uri.scheme == 'data':", "                    if uri.scheme == 'data':", "R9.8"),
         T("url-strip-needs-nonspace", REL, "r'url\\s*\\([^)]*\\)\\s*'", "r'url\\s*\\(\\s*[^\\s)]+?\\s*\\)\\s*'", "R9.5"),
